@@ -518,11 +518,15 @@ class Head:
     x: {pos} = None
 {wdef}
 """}
-REC_JOBS = [(p_, t_) for p_ in REC_POSITIONS for t_ in ("extra", "bare", "via")]
+# "C:" positions: W wraps the CLASS Node itself and sits next to a bare Node at the same level (two members that unwrap to one type)
+REC_CLASS_POSITIONS = ["C:typing.Optional[typing.Tuple[Node, W]]", "C:typing.List[typing.Tuple[Node, W]]", "C:typing.Union[Node, W, None]",
+                       "C:typing.Dict[str, typing.Tuple[W, Node]]", "C:typing.Optional[typing.Tuple[W, Node, W]]"]
+REC_JOBS = [(p_, t_) for p_ in REC_POSITIONS + REC_CLASS_POSITIONS for t_ in ("extra", "bare", "via")]
 
 
 def _rec_family_src(chain, pos, tmpl):
-    lines, cur = [], "typing.Optional[Node]"
+    lines, cur = [], ("Node" if pos.startswith("C:") else "typing.Optional[Node]")
+    pos = pos[2:] if pos.startswith("C:") else pos
     for i, w in enumerate(reversed(chain)):
         name = f"W{i}"
         if w == "A":
@@ -545,6 +549,12 @@ def _rec_chain_child(job):
     import typelib
 
     def wrapv(v):
+        if pos.startswith("C:"):
+            if v is None:
+                return {"C:typing.List[typing.Tuple[Node, W]]": [], "C:typing.Dict[str, typing.Tuple[W, Node]]": {}}.get(pos)
+            return {"C:typing.Optional[typing.Tuple[Node, W]]": [v, v], "C:typing.List[typing.Tuple[Node, W]]": [[v, v]],
+                    "C:typing.Union[Node, W, None]": v, "C:typing.Dict[str, typing.Tuple[W, Node]]": {"k": [v, v]},
+                    "C:typing.Optional[typing.Tuple[W, Node, W]]": [v, v, v]}[pos]
         return {"W": v, "typing.Union[W, int]": v, "typing.List[W]": [v, None], "typing.Dict[str, W]": {"k": v},
                 "typing.Tuple[W, int]": [v, "7"]}[pos]
 
@@ -565,7 +575,7 @@ def _rec_chain_child(job):
         exec(_rec_family_src(chain, pos, tmpl), mod.__dict__)
         Node, Head = mod.Node, mod.Head
         fx = "y" if tmpl == "via" else "x"           # the field of Node that carries the position
-        none = [None, 1] if pos == "typing.Tuple[W, int]" else None
+        none = [None, 1] if pos == "typing.Tuple[W, int]" else wrapv(None) if pos.startswith("C:") else None
         leaf = {fx: none, "d": "2021-03-04"} if tmpl != "bare" else {fx: none}
         inner = {fx: wrapv(leaf), **({"d": "2022-05-06"} if tmpl != "bare" else {})}
         inputs = [{"x": wrapv(inner)}, {"x": wrapv(None)}, {"x": wrapv(leaf)}, {"x": "junk"}, {}, '{"x": null}']
@@ -607,7 +617,7 @@ def rec_chain_probe(res):
             raise RuntimeError(f"harness: recursive chain probe is vacuous at {pos}")
         res.case({"family": "wrapper-chains-over-recursive-union", "pos": pos, "classes": tmpl}, True)
         for chain, diff in o["bad"]:
-            res.failures.append({"what": f"chain {chain} (A alias, S string-valued alias, N NewType; outermost first) over Optional[Node] at "
+            res.failures.append({"what": f"chain {chain} (A alias, S string-valued alias, N NewType; outermost first) over the type that closes the recursion at "
                                          f"`x: {pos}` of the recursive classes Head / Node ({tmpl}) is not transparent: (wrapped, plain) = {diff}",
                                  "input": {"rec_chain": [chain, pos, tmpl]}})
         if not o["bad"]:
